@@ -192,15 +192,15 @@ def check(ctx: Ctx) -> list[RuleResult]:
         out.append(r3)
     else:
         r3.ok({"memoisation": "none keyed on a subset of the arguments"})
-        try:
-            tab = PredEval(ctx, wf).table()
-        except Unsupported as err:
-            raise AnalysisError(f"_is_wanted_addrs is not a decision list the evaluator understands: {err}") from err
         ids = ("src_id", "dst_id")
         need = {}
         for x in ids:
             need[x] = {"excl": f"{x} in self._exclude", "act": f"{x} == self._active_hgi", "incl": f"{x} in self._include", "hgi": f"{x} == HGI_DEV_ADDR.id"}
         flat = [k for x in ids for k in need[x].values()] + ["sending", "self.enforce_include"]
+        try:
+            tab = PredEval(ctx, wf, max_rows=600000).table(expand=lambda k: k in flat)
+        except Unsupported as err:
+            raise AnalysisError(f"_is_wanted_addrs is not a decision list the evaluator understands: {err}") from err
         missing_atoms = [k for k in flat if k not in tab.atoms]
         rows_all = tab.rows
         if missing_atoms:
@@ -427,6 +427,48 @@ def check(ctx: Ctx) -> list[RuleResult]:
             else:
                 r7.fail(f"{f.short}:{how.split()[0]}:self.{tgt.attr}", f.loc(n), f"{f.short} {how} self.{tgt.attr} after construction: the device filter's configuration changes under everything that is running (packets received and devices created in the meantime are judged by the altered filter)")
     out.append(r7)
+
+    # ---- R8 ---------------------------------------------------------------------------
+    # the active gateway is exempt from the known list, so the id installed as "active" must be one the transport learned - never a
+    # fall-back: with the placeholder (or a configured guess) installed, packets to/from 18:000730 pass an enforced known list
+    r8 = RuleResult("R8", "the active gateway id is a learned id", "every argument of _set_active_hgi() comes from the transport's learned id, without a default/fall-back to the placeholder or the configured gateway", min_instances=1)
+    from .common import expand
+
+    sah = repo.func(f"{MIX}._set_active_hgi")
+    calls8 = [(f, c) for f in repo.funcs.values() for c in own_nodes(f.node) if isinstance(c, ast.Call) and isinstance(c.func, ast.Attribute) and c.func.attr == sah.name and c.args]
+    if not calls8:
+        raise AnalysisError("no call of _set_active_hgi found")
+
+    def fallbacks(f, e: ast.expr, depth: int = 3) -> list[str]:
+        bad: list[str] = []
+        e = expand(f.node, e, pure_only=False)
+        for x in ast.walk(e):
+            if isinstance(x, ast.Attribute) and isinstance(x.value, ast.Name) and x.value.id == "self" and f.cls is not None and depth > 0:
+                prop = next((k.methods[x.attr] for k in f.cls.mro if x.attr in k.methods and k.methods[x.attr].is_property), None)
+                if prop is not None:
+                    for r in own_nodes(prop.node):
+                        if isinstance(r, ast.Return) and r.value is not None:
+                            bad += [f"{prop.short}: {b}" for b in fallbacks(prop, r.value, depth - 1)] or ([] if _learned(r.value) else [f"{prop.short} returns `{norm(r.value)[:50]}`"])
+            if isinstance(x, ast.BoolOp) and isinstance(x.op, ast.Or):
+                bad.append(f"`{norm(x)[:50]}` (an `or` fall-back)")
+            if isinstance(x, ast.Call) and isinstance(x.func, ast.Attribute) and x.func.attr == "get_extra_info" and (len(x.args) > 1 or x.keywords):
+                bad.append(f"`{norm(x)[:60]}` (get_extra_info with a default)")
+            if isinstance(x, ast.Attribute) and norm(x) in ("HGI_DEV_ADDR.id", "self._known_hgi"):
+                bad.append(f"`{norm(x)}`")
+        return bad
+
+    def _learned(e: ast.expr) -> bool:
+        return any(isinstance(x, ast.Call) and isinstance(x.func, ast.Attribute) and x.func.attr == "get_extra_info" for x in ast.walk(e)) or any(isinstance(x, ast.Attribute) and x.attr in ("id",) and "src" in norm(x) for x in ast.walk(e))
+
+    for f, c in calls8:
+        r8.instances += 1
+        r8.nontrivial += 1
+        fb = fallbacks(f, c.args[0])
+        if fb:
+            r8.fail(f"{f.short}:active-hgi-from-fallback", f.loc(c), f"`{norm(c)[:70]}` can install a fall-back value as the active gateway ({'; '.join(sorted(set(fb)))[:200]}): the placeholder/configured id then counts as the active gateway and is exempt from the enforced known list")
+        else:
+            r8.ok({"site": f"{f.short}: {norm(c)[:70]}", "source": "the transport's learned id, no fall-back"})
+    out.append(r8)
     return out
 
 
